@@ -774,6 +774,7 @@ func main() {
 	}
 	defer o.Close()
 	initNcKeys()
+	setAlloc("goheap") // the package default behind a sanity cap on the length (see capMalloc)
 	r.Assume = []string{
 		"amounts of records are within 0..21e14 (the property's quantifier); CompressAmount wraps above (2^64-1)/9 — compared with the model there, not required to round-trip",
 		"record keys (first 8 txid bytes) are distinct inside one snapshot (key collisions are property C04's subject)",
@@ -806,7 +807,11 @@ func main() {
 	stage("malformed", runMalformed)
 	stage("static", runStatic)
 	stage("snapshots", runSnapshots)
-	stage("geometry", runGeometry)
+	if r.Violations() == 0 {
+		stage("geometry", runGeometry)
+	} else {
+		r.Hit("geometry-stream-skipped(earlier streams already failed)")
+	}
 	if r.Violations() == 0 {
 		stage("fallback", runFallback)
 	} else {
